@@ -592,6 +592,13 @@ req0_ctx_cancel_recv(nni_aio *aio, void *arg, nng_err rv)
 
 	nni_mtx_lock(&s->mtx);
 
+	// A cancel that lost the race against the completion of this
+	// receive must not touch the exchange that may have started since.
+	if (ctx->recv_aio != aio) {
+		nni_mtx_unlock(&s->mtx);
+		return;
+	}
+
 	// So it turns out that some users start receiving before waiting
 	// for the send notification.  In this case if receiving is
 	// canceled before sending completes, we need to restore the
